@@ -114,9 +114,18 @@ func panicValue(kind string, h, call int) any {
 		return h*1000 + call
 	case "struct":
 		return pval{h, call}
+	case "slice":
+		// values of uncomparable dynamic type: slice-based error lists are common
+		return []int{h, call}
+	case "map":
+		return map[string]int{"h": h, "call": call}
+	case "structslice":
+		return pvalList{Codes: []int{h, call}}
 	}
 	return fmt.Sprintf("boom %d/%d", h, call)
 }
+
+type pvalList struct{ Codes []int }
 
 type phCall struct {
 	EvID  int
